@@ -104,8 +104,9 @@ class Backend(ProjectBackend):
             asset for asset in page.static_assets if asset.can_upload()
         ]
 
-        # Sort for repeatable builds
-        uploadable_assets.sort(key=lambda asset: asset.key)
+        # Sort for repeatable builds. Two files may be referred to under one spelling (a relative
+        # path used in two directories): the key alone would leave their order to set iteration.
+        uploadable_assets.sort(key=lambda asset: (asset.key, asset.fileid.as_posix()))
 
         document = {
             "page_id": fully_qualified_pageid,
